@@ -82,6 +82,7 @@ def run(configfile: Sequence[str], service: str | None, set_: list[str]) -> None
         keys = [k.replace(r"\.", ".") for k in re.split(r"(?<!\\)\.", key)]
         section = config
         for i, part_key in enumerate(keys[:-1]):
+            parent_section = section
             section = section.setdefault(part_key, {})
             if not isinstance(section, Mapping):
                 path = " ⟶ ".join(x for x in keys[: i + 1])
@@ -89,6 +90,10 @@ def run(configfile: Sequence[str], service: str | None, set_: list[str]) -> None
                     f"Cannot apply override for {key!r}: value at {path} is not "
                     f"a mapping, but {qualified_name(section)}"
                 )
+
+            # Work on a copy of the section, as the same mapping object may be
+            # referenced from elsewhere in the configuration (e.g. via a YAML alias)
+            section = parent_section[part_key] = dict(section)
 
         section[keys[-1]] = parsed_value
 
